@@ -195,8 +195,11 @@ def unsorted_tree_point(res, func, block_labels, split_every, method, reindex):
     val = np.asarray(out.result)
     okay = sorted(got_labels) == sorted(want) and val.shape == (3, len(got_labels))
     if okay:
+        order = sorted(want)
+        _, scope, _ = e1.expected_table(func, V, labels.tolist(), order)  # e.g. nanarg* of an all-NaN group is undefined: not compared
         for j, g in enumerate(got_labels):
-            if rm.mismatch(val[:, j].astype(float), want[g].astype(float), rtol=1e-12).any():
+            sc = np.broadcast_to(scope, (3, len(order)))[:, order.index(g)]
+            if (rm.mismatch(val[:, j].astype(float), want[g].astype(float), rtol=1e-12) & sc).any():
                 okay = False
     if okay:
         res.outcomes["ok"] += 1
